@@ -7,6 +7,7 @@ package c20
 import (
 	"fmt"
 	"sync"
+	"sync/atomic"
 	"testing"
 	"time"
 
@@ -15,6 +16,7 @@ import (
 	"reservoir/db/models"
 	"reservoir/db/stores"
 	"reservoir/utils/phc"
+	"reservoir/webserver/auth"
 
 	"encoding/base64"
 
@@ -139,5 +141,90 @@ func TestLoginConcurrency(t *testing.T) {
 			})
 		}
 		return c
+	})
+}
+
+// ---------------------------------------------------------------- logout while the session is in use
+
+type LogoutRace struct {
+	Clients  int   `json:"clients"`
+	Requests int   `json:"requests"`  // per client
+	AgeMs    int64 `json:"age_ms"`    // the session expires this far from now (inside or outside the sliding-extension zone)
+	LogoutUs int   `json:"logout_us"` // the logout is sent this long after the clients started
+}
+
+var subLogoutRace = ev.Register("logout-vs-use",
+	"2-12 clients send 3-20 requests each with one session cookie whose expiry lies 2 s - 50 min away (inside and outside the zone in which a request extends it) while a logout of that session is sent 0-3 ms after they started; oracle: every request that starts after the logout was answered 204 is refused with 401, and so is a final request after everything has finished - a logged-out session is not live again; non-trivial = requests with the cookie were answered both before and after the logout; distinct by case",
+	func(c LogoutRace, o *ev.Obs) *ev.Failure {
+		st, sid := login("bob", goodPassword+"bob")
+		if st != 200 {
+			return ev.Failf("login.valid-rejected", "login answered %d", st)
+		}
+		sess, ok := auth.GetSession(sid)
+		if !ok {
+			return ev.Failf("login.harness", "fresh session not found")
+		}
+		defer sess.Destroy()
+		sess.ExpiresAt = time.Now().Add(time.Duration(c.AgeMs) * time.Millisecond) // nobody else knows the session yet
+		var logoutDone atomic.Int64
+		var mu sync.Mutex
+		var fail *ev.Failure
+		before, after := 0, 0
+		var wg sync.WaitGroup
+		for i := 0; i < c.Clients; i++ {
+			wg.Add(1)
+			go func() {
+				defer wg.Done()
+				for k := 0; k < c.Requests; k++ {
+					done := logoutDone.Load()
+					code, _, _ := do(reqSpec{Method: "GET", Path: "/api/version", Cookie: sid})
+					mu.Lock()
+					if done != 0 {
+						after++
+						if code != 401 && fail == nil {
+							fail = ev.Failf("auth.logged-out-session-live:during-use", "%d clients use a session that expires in %d ms; a request sent after the logout had been answered 204 got %d", c.Clients, c.AgeMs, code)
+						}
+					} else if code == 200 {
+						before++
+					}
+					mu.Unlock()
+				}
+			}()
+		}
+		wg.Add(1)
+		go func() {
+			defer wg.Done()
+			time.Sleep(time.Duration(c.LogoutUs) * time.Microsecond)
+			code, _, _ := do(reqSpec{Method: "POST", Path: "/api/auth/logout", Cookie: sid})
+			if code == 204 || code == 200 {
+				logoutDone.Store(time.Now().UnixNano())
+			} else {
+				mu.Lock()
+				if fail == nil {
+					fail = ev.Failf("logout.failed", "logout of a live session answered %d", code)
+				}
+				mu.Unlock()
+			}
+		}()
+		wg.Wait()
+		o.NonTrivial = before > 0 && after > 0
+		o.Classf("in-extension-zone:%v", c.AgeMs <= 600000)
+		if fail != nil {
+			return fail
+		}
+		if code, _, _ := do(reqSpec{Method: "GET", Path: "/api/version", Cookie: sid}); code != 401 {
+			return ev.Failf("auth.logged-out-session-live:afterwards", "%d clients used a session that expired in %d ms while it was logged out (204): afterwards the cookie is answered %d - the session is live again", c.Clients, c.AgeMs, code)
+		}
+		return nil
+	})
+
+func TestLogoutVsUse(t *testing.T) {
+	subLogoutRace.CheckSalt(t, 29, ev.N(60, 3000), func(t *rapid.T) LogoutRace {
+		return LogoutRace{
+			Clients:  rapid.IntRange(2, 12).Draw(t, "clients"),
+			Requests: rapid.IntRange(3, 20).Draw(t, "requests"),
+			AgeMs:    rapid.SampledFrom([]int64{2000, 60000, 300000, 599000, 601000, 3000000}).Draw(t, "age"),
+			LogoutUs: rapid.SampledFrom([]int{0, 200, 1000, 3000}).Draw(t, "logout"),
+		}
 	})
 }
